@@ -58,7 +58,14 @@ func (conn *Conn) close() {
 
 	/* call FidDestroy for all remaining fids */
 	if op, ok := (conn.Srv.ops).(SrvFidOps); ok {
+		// requests still executing may drop fids concurrently: take the snapshot under the lock
+		conn.Lock()
+		fids := make([]*SrvFid, 0, len(conn.fidpool))
 		for _, fid := range conn.fidpool {
+			fids = append(fids, fid)
+		}
+		conn.Unlock()
+		for _, fid := range fids {
 			op.FidDestroy(fid)
 		}
 	}
